@@ -803,3 +803,94 @@ def rule_linear_structure(rep: Report, repo: Repo):
               f"(annihilation, slot occupied) -> coefficient updates: {table}", loc(f))
     nil = [n for n in own_nodes(f) if isinstance(n, ast.If) and norm(n.test) in ("abs(new_power) > One", "abs(new_power) > 1")]
     rep.check(len(nil) == 1 and isinstance(nil[0].body[0], ast.Continue), RULE, f"{CLS}._multiply_op drops nilpotent fermion/spin powers", "", loc(f))
+
+
+# ---------------------------------------------------------------------------
+# powers of a number operator: N**k = N only where N is a projector (fermion and spin modes)
+# ---------------------------------------------------------------------------
+
+
+def rule_number_operator_power(rep: Report, repo: Repo):
+    """`NumberOperator._eval_power` collapses N**k to N for integer k != 0.  That is an identity of the algebra only for modes
+    whose number operator is idempotent: fermions and spins.  For boson and ladder modes the power must be left to sympy.
+    Decided on the grid (operator type) x (exponent integer?) x (exponent zero?)."""
+    from .paths import eval_bool
+    from .sem import canon, outcomes
+    R = "E10"
+    MODN = "number_ordered_form"
+    tree = repo.trees[MODN]
+    f = repo.find(f"{MODN}::NumberOperator::_eval_power", R)
+    loc = repo.loc(MODN, f)
+    params = [a.arg for a in f.args.args]
+    if len(params) != 2:
+        raise AnalysisError(R, "NumberOperator._eval_power: signature is not (self, exp)")
+    E = params[1]
+    ot = [n for n in tree.body if isinstance(n, ast.Assign) and norm(n.targets[0]) == "operator_types" and isinstance(n.value, ast.Tuple)]
+    if len(ot) != 1:
+        raise AnalysisError(R, "number_ordered_form.operator_types not found")
+    TYPES = [norm(e).split(".")[-1] for e in ot[0].value.elts]  # BosonOp, LadderOp, SigmaOpBase, FermionOp
+    IDEMPOTENT = {"SigmaOpBase", "FermionOp"}
+    if set(TYPES) != {"BosonOp", "LadderOp", "SigmaOpBase", "FermionOp"}:
+        raise AnalysisError(R, f"operator_types = {TYPES}: the table of idempotent number operators of this rule does not cover it")
+    # local class hierarchy (classes defined in the module); sympy's BosonOp / FermionOp / SigmaOpBase are unrelated to each other
+    bases = {n.name: [norm(b).split(".")[-1] for b in n.bases] for n in tree.body if isinstance(n, ast.ClassDef)}
+
+    def subclass(t, c):
+        seen, todo = set(), [t]
+        while todo:
+            x = todo.pop()
+            if x == c:
+                return True
+            if x in seen:
+                continue
+            seen.add(x)
+            todo += bases.get(x, [])
+        return False
+    TYPE_TEXTS = ("self.args[1].name", "str(self.args[1])", "self.args[1].name")
+    table = {}
+    for T in TYPES:
+        for is_int in (True, False):
+            for is_zero in (True, False):
+                if is_zero and not is_int:
+                    continue
+
+                def atom(n, T=T, is_int=is_int, is_zero=is_zero):
+                    n = canon(n)
+                    t = norm(n)
+                    if t == f"{E}.is_integer":
+                        return is_int
+                    if t in (f"{E} == 0", f"0 == {E}", f"{E}.is_zero"):
+                        return is_zero
+                    if t in (f"{E} != 0", f"0 != {E}"):
+                        return not is_zero
+                    if isinstance(n, ast.Compare) and len(n.ops) == 1 and norm(n.left) in TYPE_TEXTS:
+                        r = n.comparators[0]
+                        if isinstance(n.ops[0], (ast.In, ast.NotIn)) and isinstance(r, (ast.Tuple, ast.List, ast.Set)) \
+                                and all(isinstance(x, ast.Constant) and isinstance(x.value, str) for x in r.elts):
+                            inside = T in [x.value for x in r.elts]
+                            return inside if isinstance(n.ops[0], ast.In) else not inside
+                        if isinstance(n.ops[0], (ast.Eq, ast.NotEq)) and isinstance(r, ast.Constant) and isinstance(r.value, str):
+                            return (T == r.value) if isinstance(n.ops[0], ast.Eq) else (T != r.value)
+                    if isinstance(n, ast.Call) and call_name(n) == "issubclass" and len(n.args) == 2 \
+                            and norm(n.args[0]) == "operator_type_by_name[self.args[1]]":
+                        cs = n.args[1].elts if isinstance(n.args[1], ast.Tuple) else [n.args[1]]
+                        return any(subclass(T, norm(c).split(".")[-1]) for c in cs)
+                    return None
+                got = set()
+                for o in outcomes(f.body, None, env={}, atom=atom, expand=False):
+                    und = [norm(t_)[:60] for t_, _p in o.conds if eval_bool(t_, atom) is None]
+                    if und:
+                        raise AnalysisError(R, f"NumberOperator._eval_power: condition `{und[0]}` not understood")
+                    if o.kind != "return":
+                        raise AnalysisError(R, "NumberOperator._eval_power: path without return")
+                    v = norm(o.value)
+                    got.add("N" if v == "self" else ("generic" if v in (f"super()._eval_power({E})", f"super(NumberOperator, self)._eval_power({E})",
+                                                                        "None") else "other:" + v[:40]))
+                table[(T, is_int, is_zero)] = sorted(got)
+    unknown = {k: v for k, v in table.items() if any(x.startswith("other:") for x in v)}
+    if unknown:
+        raise AnalysisError(R, f"NumberOperator._eval_power returns {unknown}")
+    bad = {k: v for k, v in table.items() if v != (["N"] if (k[0] in IDEMPOTENT and k[1] and not k[2]) else ["generic"])
+           and not (k[0] in IDEMPOTENT and v == ["generic"])}  # leaving an idempotent power to sympy is correct, only less simplified
+    rep.check(not bad, R, "number_ordered_form::NumberOperator._eval_power collapses N**k to N only for fermion and spin modes (integer k != 0)",
+              f"(operator type, exponent integer, exponent zero) -> result; wrong: {bad}" if bad else f"{len(table)} cases", loc)
